@@ -8,10 +8,11 @@
 EXTENDS Trackers, Json, IOUtils, TLC, FiniteSets
 Rec == ndJsonDeserialize(IOEnv.TRACE)
 VARIABLES l, t, p, mlast, mp, mC,
+          mn,     \* updates the multi-chain tracker has seen
           ms      \* representation slack of the chain's means: ulp of its location in units of 2^-12 (0 near the origin)
-vars == <<l, t, p, mlast, mp, mC, ms>>
+vars == <<l, t, p, mlast, mp, mC, mn, ms>>
 
-Init == l = 1 /\ t = NewTracker(0, <<>>) /\ p = -1 /\ mlast = <<>> /\ mp = 0 /\ mC = 0 /\ ms = 0
+Init == l = 1 /\ t = NewTracker(0, <<>>) /\ p = -1 /\ mlast = <<>> /\ mp = 0 /\ mC = 0 /\ mn = 0 /\ ms = 0
 
 Abs(x) == IF x < 0 THEN -x ELSE x
 \* A chain that lives at location `off` is traced RELATIVE to off (mean and variance are shift-equivariant / invariant).
@@ -19,13 +20,14 @@ Abs(x) == IF x < 0 THEN -x ELSE x
 \* (ms units, 2 of them allowed -- at 1e9, for f64 / integer states, that is 128); nothing else may depend on the
 \* location: the variance gets at most 2 units -- a tracker that accumulates raw values
 \* (E[x^2] - mean^2, or a running mean of the raw values that stalls once delta/n drops below the spacing) is rejected.
-MeanOk(tr, k, m) == Abs(m * tr.n - MeanNum(tr, k) * 4096) <= (2 + tr.n \div 256 + 2 * ms) * tr.n
+\* (written with a division: at 1e9 the allowance is 2 * 262144 units and its product with n = 5000 leaves TLC's 32 bits)
+MeanOk(tr, k, m) == Abs(m - (MeanNum(tr, k) * 4096) \div tr.n) <= 3 + tr.n \div 256 + 2 * ms
 VarOk(tr, k, v) == Abs(v - Fx12(VarNum(tr, k), tr.n * (tr.n - 1))) <= 4 + tr.n \div 32 + (IF ms < 2 THEN ms ELSE 2)
 
 New ==
   /\ l <= Len(Rec) /\ Rec[l].e = "new"
   /\ t' = NewTracker(Rec[l].P, Rec[l].x0) /\ p' = -1 /\ ms' = Rec[l].mslack
-  /\ UNCHANGED <<mlast, mp, mC>> /\ l' = l + 1
+  /\ UNCHANGED <<mlast, mp, mC, mn>> /\ l' = l + 1
 
 Upd ==
   /\ l <= Len(Rec) /\ Rec[l].e = "upd"
@@ -39,11 +41,11 @@ Upd ==
         /\ p >= 0 => EmaStepOk(p, e.p, Moved(t, e.x))
         /\ p < 0 => e.p = (IF Moved(t, e.x) THEN 1048576 ELSE 0)
         /\ t' = t2 /\ p' = e.p
-  /\ UNCHANGED <<mlast, mp, mC, ms>> /\ l' = l + 1
+  /\ UNCHANGED <<mlast, mp, mC, mn, ms>> /\ l' = l + 1
 
 MNew ==
   /\ l <= Len(Rec) /\ Rec[l].e = "mnew"
-  /\ mC' = Rec[l].C /\ mp' = 0
+  /\ mC' = Rec[l].C /\ mp' = 0 /\ mn' = 0
   /\ mlast' = [c \in 1..Rec[l].C |-> [k \in 1..Rec[l].P |-> 0]]
   /\ UNCHANGED <<t, p, ms>> /\ l' = l + 1
 
@@ -53,8 +55,13 @@ MUpd ==
          k == Cardinality({c \in 1..mC : e.rows[c] # mlast[c]})
      IN /\ Len(e.rows) = mC
         /\ e.p >= 0 /\ e.p <= 32768
-        /\ EmaFoldOk(mp, e.p, mC, k)
-        /\ mlast' = e.rows /\ mp' = e.p
+        \* the tracker is built without a state: its first update has nothing to compare with and only records; the
+        \* average of indicators then starts with the first indicator (that of the first chain), as in ChainTracker.
+        \* Before any indicator exists the property fixes no value beyond the range [0, 1] demanded above.
+        /\ IF mn = 0 THEN TRUE
+           ELSE IF mn = 1 THEN EmaFoldOk(IF e.rows[1] # mlast[1] THEN 32768 ELSE 0, e.p, mC, k)
+           ELSE EmaFoldOk(mp, e.p, mC, k)
+        /\ mlast' = e.rows /\ mp' = e.p /\ mn' = mn + 1
   /\ UNCHANGED <<t, p, mC, ms>> /\ l' = l + 1
 
 Next == New \/ Upd \/ MNew \/ MUpd
